@@ -58,4 +58,12 @@ var vPrefixes = []string{
 	"GET /a /* x *",          // 53
 	"INCLUDE a ",             // 54
 	"OperationId",            // 55
+	"JSIGHT 0.3\nGET /a\nDescription\n",                 // 56 Description directly followed by ...
+	"JSIGHT 0.3\nGET /a\nDescription\n2",                // 57 ... the start of a directive
+	"JSIGHT 0.3\nTYPE @a\n{}\nTYPE @a regex\n/a",         // 58 same type name, two notations
+	"JSIGHT 0.3\nENUM @e\n[\"a\" /",                      // 59 enum body ending inside a comment
+	"JSIGHT 0.3\nGET /a\n  200 any\n  Description\n t\n", // 60
+	"JSIGHT 0.3\nURL /a\n  GET\n    200 any\n  GET\n",   // 61 same method twice
+	"JSIGHT 0.3\nGET /a/{id}/{id",                        // 62 duplicated path parameter
+	"JSIGHT 0.3\nMACRO @m\n(\n  PASTE @m\n)\nPASTE @",    // 63
 }
